@@ -65,6 +65,14 @@ def typeorder(t1, t2):
     ):
         return result.opposite()
 
+    if isinstance(t1, UnionTypes) or isinstance(t2, UnionTypes):
+        # A | B as written (e.g. inside type[...]): ordered by inclusion
+        sub = subclasscheck(t1, t2)
+        sup = subclasscheck(t2, t1)
+        if sub and sup:
+            return Order.SAME
+        return Order.LESS if sub else Order.MORE if sup else Order.NONE
+
     o1 = get_origin(t1)
     o2 = get_origin(t2)
 
@@ -184,11 +192,11 @@ def _subclasscheck(t1, t2):
     if t2 in UnionTypes:
         return isinstance(t1, t2)
 
-    if isinstance(t2, UnionTypes):
-        # A | B, typing.Union[A, B] that were not normalized
-        return any(subclasscheck(t1, a) for a in get_args(t2))
     if isinstance(t1, UnionTypes):
+        # A | B, typing.Union[A, B] that were not normalized
         return all(subclasscheck(a, t2) for a in get_args(t1))
+    if isinstance(t2, UnionTypes):
+        return any(subclasscheck(t1, a) for a in get_args(t2))
 
     o1 = get_origin(t1)
     o2 = get_origin(t2)
